@@ -22,6 +22,8 @@ command line behind the formatters that have a file) the text the run wrote to t
   tables   {json, model: [{el, pos, headings, rows}], jtext, mtext: [{el, pos, lines}]}  data tables / doc-strings of the
             steps of scenario elements in the JSON report, and of scenario.all_steps of the model after the run
             (step.table.headings, row.cells, step.text), in document order
+  quiet_stdout  the run had no formatter on stdout and wrote nothing at all to the real stdout (behave's own messages
+            such as "ABORTED: By user.", HOOK-ERROR / CLEANUP-ERROR tracebacks, uncaptured step output would show here)
   error    "" or what could not be read at all
 Python only reads and maps; what the reports should contain is decided by specs/Consumers_Trace.tla."""
 import json
@@ -234,6 +236,8 @@ def project(env):
     M = _Map(env)
     d = env.outdir
     out = {"error": ""}
+    # nothing but formatters wrote to the real stdout of this run (only told for runs without a formatter on stdout)
+    out["quiet_stdout"] = not ((env.case or {}).get("stdout_formats")) and not (env.real_out or "").strip()
     jpath = _first(d, ["out_json.txt", "out_json_pretty.txt"], env, ("json", "json.pretty"))
     try:
         out["json"], data = _json(jpath, M)
@@ -244,7 +248,7 @@ def project(env):
         out["p2"] = _p2(_first(d, ["out_progress2.txt"], env, ("progress2",)), M)
         out["p3"] = _p3(_first(d, ["out_progress3.txt"], env, ("progress3",)), M)
     except (OSError, UnicodeError) as x:
-        out = {"error": type(x).__name__, "json": {"present": False, "valid": False, "features": []},
+        out = {"error": type(x).__name__, "quiet_stdout": False, "json": {"present": False, "valid": False, "features": []},
                "readback": {"done": False, "parse_exc": "", "exc": "", "line_is_text": False, "features": [], "tables": []},
                "tables": {"json": [], "model": [], "jtext": [], "mtext": []},
                "plain": {"present": False, "lines": []}, "p1": {"present": False, "lines": []},
